@@ -397,7 +397,7 @@ func c17GenCase(r *rand.Rand, mode string) c17Case {
 			nev = 0
 		}
 		for e := 0; e < nev; e++ {
-			ev := []string{"appear", "appear", "disappear", "disappear", "move", "move", "severity", "retext", "twin", "samemsg", "dup", "flood", "clear", "humandel", "humanadd"}[r.Intn(15)]
+			ev := []string{"appear", "appear", "disappear", "disappear", "move", "move", "severity", "retext", "twin", "samemsg", "samesummary", "dup", "flood", "clear", "humandel", "humanadd"}[r.Intn(16)]
 			pick := -1
 			if len(cur) > 0 {
 				pick = r.Intn(len(cur))
@@ -469,6 +469,15 @@ func c17GenCase(r *rand.Rand, mode string) c17Case {
 				}
 				t := cur[pick]
 				t.Summary = c17Summaries[r.Intn(len(c17Summaries))]
+				t.Rule = fmt.Sprintf("Rule%02d", r.Intn(30))
+				cur = append(append([]c17Problem{}, cur...), t)
+			case "samesummary": // same check, lines and summary, but different details: both texts must be carried
+				if pick < 0 {
+					ev = "repeat"
+					break
+				}
+				t := cur[pick]
+				t.Details = "Other details " + fmt.Sprint(r.Intn(1000)) + "."
 				t.Rule = fmt.Sprintf("Rule%02d", r.Intn(30))
 				cur = append(append([]c17Problem{}, cur...), t)
 			case "samemsg": // identical message on the same lines
